@@ -286,6 +286,27 @@ func init() {
 				if len(sigs) > 0 {
 					em.Fail(atoms, sigs, rp)
 				}
+				if len(sigs) == 0 && len(l.Ops) == 1 && len(l.Files) == 1 && l.Files[0].Content == "a" && len(f.Fakes.LastMultipart) > 0 {
+					// the same layout once more, the file now being the very request the gateway has just sent to a service
+					// (part headers, delimiter lines and all): a file is bytes, whatever they look like
+					l2 := l
+					l2.Files = []upFile{{Name: "captured.http", Content: string(f.Fakes.LastMultipart), Paths: l.Files[0].Paths}}
+					l2.Desc = l.Desc + ", the file is the multipart request the gateway sent for the run before"
+					body2, ct2 := l2.body()
+					f.Fakes.Reset()
+					r2, _ := http.NewRequest("POST", "/", strings.NewReader(body2))
+					r2.Header.Set("Content-Type", ct2)
+					rr2 := httptest.NewRecorder()
+					f.GW.Handler(rr2, r2)
+					if r2.MultipartForm != nil {
+						r2.MultipartForm.RemoveAll()
+					}
+					sigs2, _, _ := JudgeUpload(f, l2, rr2.Code, rr2.Body.Bytes())
+					if len(sigs2) > 0 {
+						em.Fail(append(append([]string{}, atoms...), "file-is-a-captured-request"), sigs2, map[string]interface{}{"world": wd.Name(), "cfg": cfg.String(), "layout": l2.Desc, "content_type": ct2, "body": body2})
+					}
+					em.Extra("captured-request-runs", 1)
+				}
 				if i%97 == 0 {
 					em.Sample(map[string]interface{}{"world": wd.Name(), "layout": l.Desc, "ops": len(l.Ops), "files": len(l.Files)})
 				}
